@@ -381,6 +381,18 @@ def rule_store_contract(ctx: Ctx, out: Collector) -> None:
         if m.node.args.vararg is not None and calls_hide:
             hide_methods.append(m)
     if not hide_methods:
+        # found by what it does: a method taking node ids by * that, on a storage where K is visible everywhere, hides K somewhere
+        for m in st.methods.values():
+            if m.node.args.vararg is None:
+                continue
+            try:
+                storage = make_storage(p, st, {s_: {'K': ('visible', 1)} for s_ in stores})
+                Interp(p, Oracle()).call_unit(m, ['K'], {}, storage)
+                if any(presence_of(storage.attrs[s_], 'K', p) == 'hidden' for s_ in stores):
+                    hide_methods.append(m)
+            except (ARaise, AnalysisError):
+                continue
+    if not hide_methods:
         raise AnalysisError('re-arming composite (hide_last_execution) not found (SW-4 anchor vanished)')
     import itertools as _it
     for m in hide_methods:
